@@ -26,7 +26,7 @@ Proof.
   rewrite (IH (S i) R3 Ht'). rewrite andb_true_r.
   unfold att_demanded, proj_att.
   rewrite (proj2 (Nat.leb_le _ _) T1), (proj2 (Nat.leb_le _ _) T2). cbn [andb].
-  rewrite R1, R2. destruct (s i); cbn; rewrite ?Nat.eqb_refl; reflexivity.
+  rewrite R1, R2. destruct (s i) as [|[] []]; cbn; rewrite ?Nat.eqb_refl; reflexivity.
 Qed.
 
 Lemma ctx_demanded_spec s : forall k i,
